@@ -393,6 +393,21 @@ def check_globals(ctx, num=4):
         f, n = sites[0]
         ctx.ob(num, "K11", "process-global state that is mutated at run time is limited to the confirmed table (anything else can make a run depend on what ran before it in the process)",
                ok, f, n, construct=f"global {key}", detail=(GLOBAL_OK[key] if ok else f"`{key}` is module- or class-level state written in {sorted({s[0].qual for s in sites})}; not in the confirmed table {sorted(GLOBAL_OK)}"))
+    # memoised functions are process-global state too (the cached value outlives the run, and a cached mutable value is shared by all callers)
+    MEMO = {"lru_cache", "cache", "cached_property", "memoize", "memoized"}
+    memo = []
+    for m in P.real_modules():
+        for f in m.funcs.values():
+            for dec in f.node.decorator_list:
+                dn = dec.func if isinstance(dec, ast.Call) else dec
+                nm_ = dn.attr if isinstance(dn, ast.Attribute) else (dn.id if isinstance(dn, ast.Name) else "")
+                if nm_ in MEMO:
+                    memo.append((f, dec, nm_))
+    for f, dec, nm_ in memo:
+        ctx.ob(num, "K11", "no function of the package is memoised (a cache is process-global state: what an earlier run computed — or wrote into a cached mutable value — "
+               "reaches every later run)", False, f, dec, construct=f"@{nm_} on {f.qual}", detail=f"{f.mod.rel}::{f.qual} is decorated with {norm.U(dec)}")
+    if not memo:
+        ctx.ob(num, "K11", "no function of the package is memoised", True, file="eudoxia", construct="memoisation decorators", detail="0 functions decorated with " + "/".join(sorted(MEMO)))
     # the container counter flows only into container_id
     ci = P.fn(CT, "Container.__init__")
     reads = [n for n in own_nodes(ci.node) if isinstance(n, ast.Attribute) and n.attr == "next_container_num" and isinstance(n.ctx, ast.Load)]
